@@ -789,67 +789,20 @@ func c09FlatCache(c *Ctx, p *Prog, flatF, onceF *types.Var) {
 	// elements, copies into it or sorts it.
 	nUse := 0
 	for _, fn := range p.Funcs("benchproc") {
-		tainted := map[ssa.Value]bool{}
+		var roots []ssa.Value
 		eachInstr(fn, func(_ *ssa.BasicBlock, in ssa.Instruction) {
 			if call, ok := in.(*ssa.Call); ok && objIs(calleeObj(&call.Call), bprocPkg, "Projection", "FlattenedFields") {
-				tainted[call] = true
+				roots = append(roots, call)
 			}
 		})
-		if len(tainted) == 0 || passedToOnceDo(fn) {
+		if len(roots) == 0 || passedToOnceDo(fn) {
 			continue
 		}
-		for changed := true; changed; {
-			changed = false
-			eachInstr(fn, func(_ *ssa.BasicBlock, in ssa.Instruction) {
-				v, ok := in.(ssa.Value)
-				if !ok || tainted[v] {
-					return
-				}
-				switch x := in.(type) {
-				case *ssa.Slice:
-					if tainted[x.X] {
-						tainted[v], changed = true, true
-					}
-				case *ssa.Phi:
-					for _, e := range x.Edges {
-						if tainted[e] {
-							tainted[v], changed = true, true
-						}
-					}
-				case *ssa.ChangeType:
-					if tainted[x.X] {
-						tainted[v], changed = true, true
-					}
-				}
-			})
+		ins, what := writesThrough(fn, roots)
+		for i, in := range ins {
+			nUse++
+			c.Bad(R, fmt.Sprintf("%s:writes-borrowed-field-list#%d", fnName(fn), nUse), p.pos(in.Pos()), "the function "+what[i]+" the list it got from FlattenedFields (or a reslice of it, which shares its backing array): that list is the projection's cache of comparison fields, so the next comparison of two keys walks a corrupted field list — fields are skipped or compared twice and the order is no longer total")
 		}
-		eachInstr(fn, func(_ *ssa.BasicBlock, in ssa.Instruction) {
-			what := ""
-			switch x := in.(type) {
-			case *ssa.Call:
-				if bi, ok := x.Call.Value.(*ssa.Builtin); ok {
-					if (bi.Name() == "append" || bi.Name() == "copy") && tainted[x.Call.Args[0]] {
-						what = bi.Name() + "s onto"
-					}
-				} else if len(x.Call.Args) > 0 && isSortCallShallow(&x.Call) {
-					a := x.Call.Args[0]
-					if mi, ok := a.(*ssa.MakeInterface); ok {
-						a = mi.X
-					}
-					if tainted[a] {
-						what = "sorts"
-					}
-				}
-			case *ssa.Store:
-				if ia, ok := x.Addr.(*ssa.IndexAddr); ok && tainted[ia.X] {
-					what = "stores into"
-				}
-			}
-			if what != "" {
-				nUse++
-				c.Bad(R, fmt.Sprintf("%s:writes-borrowed-field-list#%d", fnName(fn), nUse), p.pos(in.Pos()), "the function "+what+" the list it got from FlattenedFields (or a reslice of it, which shares its backing array): that list is the projection's cache of comparison fields, so the next comparison of two keys walks a corrupted field list — fields are skipped or compared twice and the order is no longer total")
-			}
-		})
 	}
 	c.OK(R, "borrowed-field-list:read-only", "", "no function writes through the list FlattenedFields returns")
 }
